@@ -842,7 +842,14 @@ impl MmapXenGrant {
     fn mmap_range(&self, addr: GuestAddress, size: usize, prot: i32) -> Result<(MmapUnix, u64)> {
         let (count, size) = pages(size);
         let index = self.mmap_ioctl(addr, count)?;
-        let unix_mmap = MmapUnix::new(size, prot, self.flags, self.as_raw_fd(), index)?;
+        let unix_mmap = match MmapUnix::new(size, prot, self.flags, self.as_raw_fd(), index) {
+            Ok(unix_mmap) => unix_mmap,
+            Err(e) => {
+                // Give the grant references back, nothing refers to them if the mapping failed.
+                let _ = self.unmap_ioctl(count as u32, index);
+                return Err(e);
+            }
+        };
 
         Ok((unix_mmap, index))
     }
